@@ -35,7 +35,9 @@ RULE = ("a state = one (object, copy route chain) configuration: object in {ever
         "namespaces of 0-3 taxa x layouts x decorations} x route chain in {deepcopy, clone(0|1|2), copy "
         "constructor, copy constructor with new namespace, copy.copy, taxon_namespace_scoped_copy, extract_tree}^(1|2); "
         "plus every sequence of 2 and 3 copy operations (any route, each applied to the original, to the result of an "
-        "earlier step or to the namespace of either) on one small object per kind, the last copy judged; plus every sequence of 2-3 copies "
+        "earlier step or to the namespace of either) on one small object per kind, the last copy judged; plus degenerate sources x every route and route pair "
+        "(objects over an EMPTY namespace: Tree(), a tree of taxon-less nodes, empty TreeList, lists of taxon-less trees, "
+        "matrices without rows; single-node trees with / without taxon; a taxon labelled None or ''); plus every sequence of 2-3 copies "
         "(taxon_namespace_scoped_copy(memo=M) | copy.deepcopy(x, M)) of three objects of one namespace sharing one caller-supplied "
         "memo, the namespace optionally growing between copies; "
         "a transition = one mutation of the alphabet (every structural edit at every node, every length / label / "
@@ -105,6 +107,10 @@ def bounds(tier):
                               "sources_per_step": "original | result of an earlier step | namespace of either (distinct objects only)",
                               "objects": [describe(d) for d in SEQ_OBJECTS[tier]], "judged": "last copy of each sequence, all E1 oracles "
                               "+ earlier objects unchanged" + ("" if q else " + probe mutations on either side")},
+        "E1_degenerate_sources": {"tree": DEGENERATE["tree"], "treelist": DEGENERATE["treelist"], "matrix": "3 types, no rows, empty namespace",
+                                  "ns": DEGENERATE["ns"], "rootings": [True, False, None], "decorations": ["none", "len+com+ann+extra"],
+                                  "routes": "every route and every ordered route pair of the kind",
+                                  "mutations": "undecorated: whole alphabet; all: namespace-growth probe on both sides"},
         "E1_shared_memo_sequences": {"copies": [2, 3], "objects": "A, B, C (C of A's kind) in one namespace; (A,B) kinds: all 9 pairs of tree/treelist/matrix",
                                      "operations": ["taxon_namespace_scoped_copy(memo=M)", "copy.deepcopy(x, M)"],
                                      "edit_between_copies": "optionally: new taxon in the namespace + a leaf/row carrying it on every object"},
@@ -116,7 +122,10 @@ def bounds(tier):
                          "tree_lists": "members [], [0], [1,2], [0,0], [0,1]" + ("" if q else ", [2,0,1]") + " x {all decorations, none}",
                          "matrices": "3 types x rows {0,3}" + ("" if q else "+{1}") + " x {all decorations, none}",
                          "namespaces": "taxa {0,1,3} x {plain, removed_low} x {all decorations, none}",
-                         "routes": "every route of the kind"},
+                         "routes": "every route of the kind",
+                         "namespace_growth_probe": "on both sides of every mutated pair: new taxon in the namespace + a node/tree/row "
+                                                   "carrying it; shared-namespace copies must see the very Taxon in their namespace, "
+                                                   "deep copies nothing"},
     }
 
 
@@ -535,7 +544,10 @@ MATRIX_TYPES = {"dna": dendropy.DnaCharacterMatrix, "standard": dendropy.Standar
 
 
 def build_matrix_obj(desc):
-    ns, _bit = build.make_namespace(U.LABELS[:3], "extra_high")  # '_hi' has no sequence
+    if desc.get("degenerate"):
+        ns = dendropy.TaxonNamespace()      # no taxa at all (and therefore no rows)
+    else:
+        ns, _bit = build.make_namespace(U.LABELS[:3], "extra_high")  # '_hi' has no sequence
     dtype = desc["dtype"]
     m = MATRIX_TYPES[dtype](taxon_namespace=ns)
     data = MATRIX_DATA[dtype][:desc["rows"]]
@@ -593,7 +605,88 @@ def build_ns_obj(desc):
     return ns
 
 
-BUILDERS = {"tree": build_tree_obj, "treelist": build_treelist_obj, "matrix": build_matrix_obj, "ns": build_ns_obj}
+# degenerate sources: objects over an EMPTY namespace, single-node trees, a namespace whose only
+# taxon has the label None / ''
+DEGENERATE = {
+    "tree": ["bare", "taxonless3", "single_taxon", "single_notaxon_unused_taxon", "single_taxon_label_none",
+             "single_taxon_label_empty"],
+    "treelist": ["empty", "one_bare_tree", "two_taxonless_trees"],
+    "matrix": ["no_rows_empty_namespace"],
+    "ns": ["only_taxon_label_none", "only_taxon_label_empty"],
+}
+
+
+def _taxonless3(ns):
+    t = dendropy.Tree(taxon_namespace=ns)
+    t.seed_node.new_child(edge_length=1.0)
+    t.seed_node.new_child(edge_length=2.0)
+    return t
+
+
+def _decorate_list(tl, desc):
+    flags = desc["flags"]
+    if "len" in flags:
+        tl.label = "TL"
+    if "com" in flags:
+        tl.comments.append("list-comment")
+    if "ann" in flags:
+        decorate_annotable(tl, "tla", "label", True, True)
+    if "extra" in flags:
+        tl.extra = ["x", [1]]
+    decorate_ns(tl.taxon_namespace, flags)
+
+
+def build_degenerate(desc):
+    kind, d = desc["kind"], desc["degenerate"]
+    if kind == "tree":
+        if d == "bare":
+            tree = dendropy.Tree()
+        elif d == "taxonless3":
+            tree = _taxonless3(dendropy.TaxonNamespace())
+        else:
+            ns = dendropy.TaxonNamespace()
+            label = {"single_taxon": "a", "single_notaxon_unused_taxon": "a", "single_taxon_label_none": None,
+                     "single_taxon_label_empty": ""}[d]
+            tx = dendropy.Taxon(label=label)
+            ns.add_taxon(tx)
+            tree = dendropy.Tree(taxon_namespace=ns)
+            if d != "single_notaxon_unused_taxon":
+                tree.seed_node.taxon = tx
+        tree.is_rooted = desc.get("rooted")
+        decorate_tree(tree, desc["flags"])
+        return tree
+    if kind == "treelist":
+        tl = dendropy.TreeList()
+        if d == "one_bare_tree":
+            tl.append(dendropy.Tree(taxon_namespace=tl.taxon_namespace))
+        elif d == "two_taxonless_trees":
+            tl.append(_taxonless3(tl.taxon_namespace))
+            tl.append(_taxonless3(tl.taxon_namespace))
+        _decorate_list(tl, desc)
+        return tl
+    if kind == "matrix":
+        return build_matrix_obj(desc)
+    ns = dendropy.TaxonNamespace()
+    ns.add_taxon(dendropy.Taxon(label=None if d == "only_taxon_label_none" else ""))
+    if "len" in desc["flags"]:
+        ns.label = "NS"
+    if desc.get("bitmasks"):
+        for t in ns._taxa:
+            ns.taxon_bitmask(t)
+    decorate_ns(ns, desc["flags"])
+    return ns
+
+
+def _build(kind):
+    def f(desc):
+        if desc.get("degenerate") and not (kind == "matrix"):
+            return build_degenerate(desc)
+        return _PLAIN_BUILDERS[kind](desc)
+    return f
+
+
+_PLAIN_BUILDERS = {"tree": build_tree_obj, "treelist": build_treelist_obj, "matrix": build_matrix_obj, "ns": build_ns_obj}
+BUILDERS = {k: _build(k) for k in _PLAIN_BUILDERS}
 
 
 # ---------------------------------------------------------------------------
@@ -1447,6 +1540,74 @@ def judge_copy(kind, src, route, ctx, case, sig, title, nontrivial, flags=(), in
     return cp, s0, s1, equal0
 
 
+def _suffix(desc):
+    """signature suffix for the degenerate sources"""
+    d = desc.get("degenerate")
+    if not d:
+        return ""
+    if desc["kind"] in ("treelist", "matrix") or d in ("bare", "taxonless3"):
+        return "|empty-namespace"
+    return "|degenerate-source"
+
+
+def _grow(kind, obj, label="zzgrown"):
+    """adds a taxon to obj's namespace and something carrying it that belongs to obj alone"""
+    ns = obj._taxon_namespace
+    t = ns.new_taxon(label)
+    if kind == "tree":
+        obj.seed_node.new_child(taxon=t, edge_length=3.0)
+    elif kind == "treelist":
+        nt = dendropy.Tree(taxon_namespace=ns)
+        nt.seed_node.new_child(taxon=t, edge_length=3.0)
+        obj.append(nt)
+    else:
+        obj.new_sequence(t, [_new_value(obj, None)] * 2)
+    return t
+
+
+def growth_probe(desc, chain, ctx, s_src0, s_cp0):
+    """later-mutation probe 'the namespace grows': a taxon is added to the namespace of one side
+    (and a node / tree / row carrying it).  A copy that documents a shared namespace must see
+    the very Taxon in ITS namespace (and nothing else changes); a deep copy must see nothing."""
+    kind = desc["kind"]
+    if kind == "ns":
+        return   # ns_add of the mutation alphabet
+    fam = family(kind, chain[-1])
+    sr = sig_route(kind, chain)
+    suf = _suffix(desc)
+    for side in ("source", "copy"):
+        case = {"kind": "growth", "obj": desc, "chain": list(chain)}
+        ctx.case(("growth", _key(desc), tuple(chain), side), nontrivial=_nontrivial(desc))
+        ctx.count("transitions")
+        ctx.count("transitions_namespace_growth_probe")
+        src, cp, err = make_pair(desc, chain)
+        if err:
+            return
+        target, other = (src, cp) if side == "source" else (cp, src)
+        try:
+            with warnings.catch_warnings():
+                warnings.simplefilter("ignore")
+                t = _grow(kind, target)
+        except Exception:
+            ctx.count("mutation_raised")
+            continue
+        title = "%s of %s; then a taxon (and something carrying it) is added to the %s's namespace" % (
+            chain_name(chain), describe(desc), side)
+        so, _ = snapshot(kind, other)
+        before = s_cp0 if side == "source" else s_src0
+        d = diff(body(kind, before, fam), body(kind, so, fam))
+        if d:
+            ctx.violation("growth|%s|%s|visible%s" % (kind, sr, suf),
+                          "%s: visible in the %s at %s: %s -> %s" % (title, "copy" if side == "source" else "source",
+                                                                    "/".join(d[0]), brief(d[1]), brief(d[2])), case)
+        if fam not in ("deep", "newns"):
+            ons = other.__dict__.get("_taxon_namespace")
+            if ons is None or not any(x is t for x in ons._taxa):
+                ctx.violation("growth|%s|%s|namespace-not-shared%s" % (kind, sr, suf),
+                              "%s: the new taxon is not in the namespace of the %s, which is documented to share the "
+                              "namespace" % (title, "copy" if side == "source" else "source"), case)
+
+
 def check_state(desc, chain, ctx, with_mutations=False, only_mutation=None):
     """E1 oracles for one (object, route chain); optionally the E2 mutation layer"""
     kind = desc["kind"]
@@ -1473,12 +1634,15 @@ def check_state(desc, chain, ctx, with_mutations=False, only_mutation=None):
         parts = [cat, kind, sig_route(kind, chain, raises)]
         if detail is not None:
             parts.append(detail)
-        return "|".join(parts)
+        return "|".join(parts) + _suffix(desc)
     res = judge_copy(kind, src, route, ctx, case, sig, "%s of %s" % (chain_name(chain), describe(desc)), nontrivial,
-                     desc.get("flags", ()), len(chain) > 1)
+                     desc.get("flags", ()), len(chain) > 1 or bool(desc.get("degenerate")))
     if res is not None and with_mutations:
         _cp, s0, s1, equal0 = res
-        run_mutations(desc, chain, ctx, s0, s1, only_mutation, equal0)
+        if only_mutation != "growth":
+            run_mutations(desc, chain, ctx, s0, s1, only_mutation, equal0)
+        if only_mutation in (None, "growth"):
+            growth_probe(desc, chain, ctx, s0, s1)
 
 
 # ---------------------------------------------------------------------------
@@ -1913,6 +2077,7 @@ def run_mutations(desc, chain, ctx, s_src0, s_cp0, only=None, equal0=True):
     kind = desc["kind"]
     fam = family(kind, chain[-1])
     sr = sig_route(kind, chain)
+    suf = _suffix(desc)
     src, cp, err = make_pair(desc, chain)
     if err:
         return
@@ -1947,7 +2112,7 @@ def run_mutations(desc, chain, ctx, s_src0, s_cp0, only=None, equal0=True):
                 else:
                     prev = after_src.get(_mkey(m))
                     if prev is not None and prev != ("exc", type(exc).__name__):
-                        ctx.violation("mutation-raises-on-copy-only|%s|%s|%s|%s" % (kind, sr, mutation_class(m), type(exc).__name__),
+                        ctx.violation("mutation-raises-on-copy-only|%s|%s|%s|%s%s" % (kind, sr, mutation_class(m), type(exc).__name__, suf),
                                       "%s on the %s copy of %s raised %r but works on the source" % (m, chain_name(chain), describe(desc), exc), case)
                 continue
             if nontrivial:
@@ -1956,7 +2121,7 @@ def run_mutations(desc, chain, ctx, s_src0, s_cp0, only=None, equal0=True):
             d = diff(b_cp0 if side == "source" else b_src0, body(kind, so, fam))
             mname = mutation_class(m)
             if d:
-                ctx.violation("visible|%s|%s|%s" % (kind, sr, mname),
+                ctx.violation("visible|%s|%s|%s%s" % (kind, sr, mname, suf),
                               "%s applied to the %s is visible in the %s (%s of %s) at %s: %s -> %s" % (
                                   m, side, "copy" if side == "source" else "source", chain_name(chain), describe(desc),
                                   "/".join(d[0]), brief(d[1]), brief(d[2])), case)
@@ -1969,7 +2134,7 @@ def run_mutations(desc, chain, ctx, s_src0, s_cp0, only=None, equal0=True):
                 if prev is None:
                     continue
                 if prev[0] == "exc":
-                    ctx.violation("mutation-raises-on-source-only|%s|%s|%s" % (kind, sr, mname),
+                    ctx.violation("mutation-raises-on-source-only|%s|%s|%s%s" % (kind, sr, mname, suf),
                                   "%s raised %s on the source but works on its %s copy" % (m, prev[1], chain_name(chain)), case)
                     continue
                 a, b = prev[1], view(kind, st, fam)
@@ -1980,7 +2145,7 @@ def run_mutations(desc, chain, ctx, s_src0, s_cp0, only=None, equal0=True):
                 d = diff(a, b)
                 ctx.count("differential_comparisons")
                 if d:
-                    ctx.violation("diverges|%s|%s|%s" % (kind, sr, mname),
+                    ctx.violation("diverges|%s|%s|%s%s" % (kind, sr, mname, suf),
                                   "%s has a different effect on the %s copy than on the source %s at %s: source %s, copy %s" % (
                                       m, chain_name(chain), describe(desc), "/".join(d[0]), brief(d[1]), brief(d[2])), case)
 
@@ -2030,6 +2195,8 @@ def _key(desc):
 
 def _nontrivial(desc):
     k = desc["kind"]
+    if desc.get("degenerate"):
+        return True   # the degenerate sources are the point of their layer
     if k == "tree":
         return desc["n"] >= 2
     if k == "treelist":
@@ -2041,6 +2208,10 @@ def _nontrivial(desc):
 
 def describe(desc):
     k = desc["kind"]
+    if desc.get("degenerate"):
+        return "degenerate %s '%s'%s decorations=%s" % (
+            {"tree": "tree", "treelist": "tree list", "matrix": desc.get("dtype", "") + " matrix", "ns": "namespace"}[k],
+            desc["degenerate"], " rooted=%r" % desc["rooted"] if k == "tree" else "", "+".join(desc["flags"]) or "none")
     if k == "tree":
         return "tree %s rooted=%r decorations=%s%s" % (ref.to_newick(ref.mk(U.shapes(desc["n"])[desc["si"]]), False), desc["rooted"],
                                                      "+".join(desc["flags"]) or "none",
@@ -2113,6 +2284,26 @@ def ns_objects(tier):
     return out
 
 
+def degenerate_objects(tier):
+    full = ["len", "com", "ann", "extra"]
+    out = []
+    for d in DEGENERATE["tree"]:
+        for rooted in (True, False, None):
+            for fl in ([], full):
+                out.append({"kind": "tree", "degenerate": d, "rooted": rooted, "flags": fl})
+    for d in DEGENERATE["treelist"]:
+        for fl in ([], full, ["ann"]):
+            out.append({"kind": "treelist", "degenerate": d, "flags": fl})
+    for dtype in ("dna", "standard", "continuous"):
+        for fl in ([], ["len", "com", "ann", "sub", "extra"]):
+            out.append({"kind": "matrix", "degenerate": "no_rows_empty_namespace", "dtype": dtype, "rows": 0, "flags": fl})
+    for d in DEGENERATE["ns"]:
+        for fl in ([], full):
+            for bm in (False, True):
+                out.append({"kind": "ns", "degenerate": d, "flags": fl, "bitmasks": bm})
+    return out
+
+
 def chains2(kind):
     rs = routes_of(kind)
     return [[a, b] for a in rs for b in rs if not (kind == "ns" and a == "clone1")]
@@ -2160,6 +2351,8 @@ def chunks(tier):
     for d in mutation_other_objects(tier):
         out.append({"what": "mut", "obj": d, "routes": routes_of(d["kind"]), "tier": tier})
     out.extend(sequence_chunks(tier))
+    for d in degenerate_objects(tier):
+        out.append({"what": "degenerate", "obj": d, "tier": tier})
     for ka in MEMO_KINDS:
         for kb in MEMO_KINDS:
             out.append({"what": "memoseq", "A": ka, "B": kb, "tier": tier})
@@ -2223,6 +2416,14 @@ def run_chunk(chunk, ctx):
         ctx.count("objects_mutated")
         ctx.sample({"mutated_object": describe(d), "routes": chunk["routes"],
                     "mutations_enabled_on_source": len(mutations(d["kind"], BUILDERS[d["kind"]](d)))}, 1)
+    elif what == "degenerate":
+        d = chunk["obj"]
+        for r in routes_of(d["kind"]):
+            # undecorated: the whole mutation alphabet; decorated: the namespace-growth probe only
+            check_state(d, [r], ctx, with_mutations=True, only_mutation=None if not d["flags"] else "growth")
+        for ch in chains2(d["kind"]):
+            check_state(d, ch, ctx)
+        ctx.count("objects_degenerate")
     elif what == "memoseq":
         run_memo_chunk(chunk, ctx)
     elif what == "seq":
@@ -2255,6 +2456,8 @@ def replay(case, ctx):
     case = _norm(case)
     if case.get("kind") == "state":
         check_state(case["obj"], case["chain"], ctx)
+    elif case.get("kind") == "growth":
+        check_state(case["obj"], case["chain"], ctx, with_mutations=True, only_mutation="growth")
     elif case.get("kind") == "memoseq":
         check_memo_sequence(case["A"], case["B"], case["events"], ctx)
     elif case.get("kind") == "sequence":
